@@ -39,6 +39,7 @@ type OpFeatures struct {
 	AbstractCondFrag bool // fragments whose type condition is an interface/union
 	AbstractFragMeta bool // id / __typename selected inside a concrete fragment below an abstract field
 	FragTwice        bool // one named fragment spread twice in the same selection set
+	FragDirectives   bool // @skip/@include on an inline fragment
 }
 
 func DefaultOpFeatures(t *tape.Tape) OpFeatures {
@@ -54,6 +55,10 @@ func DefaultOpFeatures(t *tape.Tape) OpFeatures {
 		NullLiterals:    t.Bool(1, 4),
 		DupFields:       t.Bool(1, 6),
 		VarOmitted:      t.Bool(1, 3),
+		VarDefaults:     t.Bool(1, 3),
+		DirectiveVars:   t.Bool(1, 2),
+		AliasCollide:    t.Bool(1, 4),
+		IDAlias:         t.Bool(1, 2),
 		VarInInput:      t.Bool(1, 3),
 		VarStricter:     t.Bool(1, 3),
 		MultiOp:         t.Bool(1, 5),
@@ -338,10 +343,15 @@ func (g *og) selSetInto(typ *ast.Definition, depth int, used map[string]bool) st
 			if noFrag || (abstract && !g.f.AbstractCondFrag) {
 			} else if g.f.InlineFragments && g.t.Bool(1, 5) {
 				g.mark("inline-fragment")
+				dir := ""
+				if g.f.Directives && g.f.FragDirectives && g.t.Bool(1, 4) && typ.Name != "Mutation" && typ.Name != "Subscription" {
+					g.mark("fragment-directive")
+					dir = " " + g.directive()
+				}
 				if g.t.Bool(1, 2) {
-					s = "... on " + typ.Name + " { " + s + " }"
+					s = "... on " + typ.Name + dir + " { " + s + " }"
 				} else {
-					s = "... { " + s + " }"
+					s = "..." + dir + " { " + s + " }"
 				}
 			} else if g.f.NamedFragments && g.t.Bool(1, 5) && len(g.frags) < 3 {
 				g.mark("named-fragment")
@@ -432,22 +442,26 @@ func (g *og) field(parent *ast.Definition, fd *ast.FieldDefinition, depth int, u
 		g.mark("args")
 		s += "(" + strings.Join(as, ", ") + ")"
 	}
-	if g.f.Directives && !plainID && g.t.Bool(1, 6) && parent.Name != "Mutation" && parent.Name != "Subscription" {
+	if g.f.Directives && !(fd.Name == "id" && !g.f.IDDirective) && g.t.Bool(1, 6) && parent.Name != "Mutation" && parent.Name != "Subscription" {
 		g.mark("directive")
-		d := []string{"skip", "include"}[g.t.Choose(2)]
-		cond := []string{"true", "false"}[g.t.Choose(2)]
-		if g.f.DirectiveVars && g.t.Bool(1, 2) {
-			g.mark("directive-var")
-			vn := g.next("b")
-			g.vars = append(g.vars, &varDecl{name: vn, typ: "Boolean!", hasValue: true, value: g.t.Bool(1, 2)})
-			cond = "$" + vn
-		}
-		s += " @" + d + "(if: " + cond + ")"
+		s += " " + g.directive()
 	}
 	if td := g.schema.Types[fd.Type.Name()]; isComposite(td) {
 		s += " " + g.selSet(td, depth+1)
 	}
 	return s
+}
+
+func (g *og) directive() string {
+	d := []string{"skip", "include"}[g.t.Choose(2)]
+	cond := []string{"true", "false"}[g.t.Choose(2)]
+	if g.f.DirectiveVars && g.t.Bool(1, 2) {
+		g.mark("directive-var")
+		vn := g.next("b")
+		g.vars = append(g.vars, &varDecl{name: vn, typ: "Boolean!", hasValue: true, value: g.t.Bool(1, 2)})
+		cond = "$" + vn
+	}
+	return "@" + d + "(if: " + cond + ")"
 }
 
 // argValue renders a value for an argument position of type t: a literal or a variable.
